@@ -423,7 +423,10 @@ func (ss *Package) messageProperties(parent RootSchema, src protoreflect.Message
 				nameInParent: "[]",
 			}
 
-			childExt := protoFieldExtensions{}
+			// the list annotation of a repeated field describes its items
+			childExt := protoFieldExtensions{
+				list: ext.list,
+			}
 
 			repeatedValidate := ext.validate.GetRepeated()
 			if repeatedValidate != nil {
@@ -478,7 +481,10 @@ func (ss *Package) messageProperties(parent RootSchema, src protoreflect.Message
 				nameInParent: "{}",
 			}
 
-			childExt := protoFieldExtensions{}
+			// the list annotation of a map field describes its values
+			childExt := protoFieldExtensions{
+				list: ext.list,
+			}
 
 			mapValidate := ext.validate.GetMap()
 			if mapValidate != nil {
